@@ -40,10 +40,15 @@ impl<'de, O: Offset> ListDeserializer<'de, O> {
         if idx + 1 >= self.offsets.len() {
             fail!("Outs of bound access");
         }
+        let start = self.offsets[idx].try_into_usize()?;
+        let end = self.offsets[idx + 1].try_into_usize()?;
+        if start > end {
+            fail!("Invalid offsets: element {idx} starts at {start} and ends at {end}");
+        }
         Ok(ListItemDeserializer {
             item: self.item.as_ref(),
-            start: self.offsets[idx].try_into_usize()?,
-            end: self.offsets[idx + 1].try_into_usize()?,
+            start,
+            end,
         })
     }
 }
